@@ -337,8 +337,22 @@ func runC16(c *core.Ctx) {
 			})
 			if recv {
 				for _, st := range cc.Body {
-					if rs, ok := st.(*ast.RangeStmt); ok && mentionsCall(lp, rs.Body, fetT+".forgetHash") {
-						okRecv = true
+					rs, ok := st.(*ast.RangeStmt)
+					if !ok {
+						continue
+					}
+					// every id of the received batch reaches forgetHash(id): no iteration skips it
+					var fh []core.Point
+					for _, cs := range lp.CallsTo(fetT + ".forgetHash") {
+						if rs.Body.Pos() <= cs.Pos() && cs.Pos() < rs.Body.End() && len(cs.Call.Args) == 1 && varOf(lp, cs.Call.Args[0]) == varOf(lp, rs.Value) {
+							fh = append(fh, cs.Pt)
+						}
+					}
+					head, _ := lp.LoopOf(rs)
+					_, complete := loopDone(lp, rs)
+					if len(fh) > 0 && head != nil && complete {
+						_, skip := core.PathQuery{F: lp, From: blockEntry(head.Succs[0]), Avoid: core.PointSet(fh...), TargetBlock: func(b *cfg.Block) bool { return b == head }}.Find()
+						okRecv = !skip
 					}
 				}
 			}
